@@ -71,6 +71,8 @@ func (f *Fill) Call(s *slip.Scope, args slip.List, depth int) (result slip.Objec
 	}
 	result = args[0]
 	switch seq := args[0].(type) {
+	case nil:
+		// the empty list, nothing to fill
 	case slip.List:
 		end = checkStartEnd(s, start, end, len(seq), depth)
 		for i := start; i < end; i++ {
